@@ -201,32 +201,73 @@ def _check_remaining(ctx, g: FuncInfo, cn: str) -> None:
 
 
 def check_annual_fn(ctx) -> None:
+    """Each annual series receives, for every year y in [0, lifetime), integrate_time_series_slice(<its power series>, y, steps per
+    year, utilisation factor).  Recognised forms (after inlining the function's own one-expression helper functions):
+    `for i in range(0, L): X[i] = INT(S, i, ...)`  and  `X[:] = [INT(S, y, ...) for y in range(L)]` / `X = np.array([...])`."""
+    from gxstat.inline import inline_simple_calls
     repo = ctx.repo
     f = repo.method('SurfacePlant', 'annual_electricity_pumping_power')
     rel = f.module.rel
-    stores = loop_stores(f.node)
-    seen = {}
-    for s in stores:
-        key = f'annual_electricity_pumping_power/{s.key}'
-        where = f'{rel}:{s.line}'
-        ok_loop = len(s.loops) == 1 and s.loops[0].start.equals(Rat.const(0)) and s.loops[0].stop.equals(Rat.atom('plant_lifetime'))
-        v = s.value
-        ok_val = isinstance(v, ast.Call) and dotted_name(v.func) == '_integrate_slice' and len(v.args) == 2 and \
-            norm(v.args[1]) == s.loops[0].var and norm(s.index) == s.loops[0].var if s.loops else False
-        src = norm(v.args[0]) if ok_val else '?'
-        ctx.check(ok_loop and ok_val and ANNUAL_OF.get(s.key) == src, 'F5', key, where,
-                  f'`{norm(s.stmt)}` over {s.loops[0].show() if s.loops else "?"}: the annual series {s.key} must be the integral of '
-                  f'{ANNUAL_OF.get(s.key)} for each year in [0, lifetime), same year on both sides', fact=f'{s.key}[i] <- {src}, year i')
-        seen[s.key] = src
+    nested = {n.name: n for n in ast.walk(f.node) if isinstance(n, ast.FunctionDef) and n is not f.node}
+    L_ = Rat.atom('plant_lifetime')
+
+    def integ(e: ast.AST, year_var: str) -> Optional[str]:
+        """series name if e (helpers inlined) is the integrator applied to (series, year_var, time_steps_per_year, utilization_factor)."""
+        e2 = inline_simple_calls(e, nested)
+        if isinstance(e2, ast.Call) and (dotted_name(e2.func) or '').endswith('integrate_time_series_slice') and len(e2.args) == 4 and \
+                [norm(a) for a in e2.args[1:]] == [year_var, 'time_steps_per_year', 'utilization_factor'] and not e2.keywords:
+            return norm(e2.args[0])
+        return None
+    seen: Dict[str, str] = {}
+    n_sites = 0
+    # loop form
+    for s_ in loop_stores(f.node):
+        if s_.key not in ANNUAL_OF or isinstance(s_.index, ast.Slice):
+            continue                               # `X[:] = ...` is the whole-series form below
+        n_sites += 1
+        key = f'annual_electricity_pumping_power/{s_.key}'
+        where = f'{rel}:{s_.line}'
+        ok_loop = len(s_.loops) == 1 and s_.loops[0].start.equals(Rat.const(0)) and s_.loops[0].stop.equals(L_) and s_.loops[0].step.equals(Rat.const(1))
+        src = integ(s_.value, s_.loops[0].var) if s_.loops else None
+        ok_idx = bool(s_.loops) and norm(s_.index) == s_.loops[0].var
+        ctx.check(ok_loop and ok_idx and src == ANNUAL_OF.get(s_.key), 'F5', key, where,
+                  f'`{norm(s_.stmt)[:100]}` over {s_.loops[0].show() if s_.loops else "?"}: the annual series {s_.key} must be the integral of '
+                  f'{ANNUAL_OF.get(s_.key)} for each year in [0, lifetime), same year on both sides', fact=f'{s_.key}[i] <- {src}, year i')
+        seen[s_.key] = src or '?'
+    # whole-series form
+    for st in ast.walk(f.node):
+        if not isinstance(st, ast.Assign) or len(st.targets) != 1:
+            continue
+        t = st.targets[0]
+        name = None
+        if isinstance(t, ast.Subscript) and isinstance(t.slice, ast.Slice) and t.slice.lower is None and t.slice.upper is None and isinstance(t.value, ast.Name):
+            name = t.value.id
+        elif isinstance(t, ast.Name) and t.id in ANNUAL_OF:
+            name = t.id
+        if name not in ANNUAL_OF:
+            continue
+        v = inline_simple_calls(st.value, nested)
+        while isinstance(v, ast.Call) and dotted_name(v.func) in ('np.array', 'np.asarray', 'list') and len(v.args) == 1:
+            v = v.args[0]
+        if not isinstance(v, ast.ListComp):
+            continue                                 # e.g. the np.zeros allocation
+        n_sites += 1
+        key = f'annual_electricity_pumping_power/{name}'
+        where = f'{rel}:{st.lineno}'
+        g = v.generators[0] if len(v.generators) == 1 else None
+        ok_rng = g is not None and not g.ifs and isinstance(g.target, ast.Name) and isinstance(g.iter, ast.Call) and dotted_name(g.iter.func) == 'range' and \
+            [norm(a) for a in g.iter.args] in (['plant_lifetime'], ['0', 'plant_lifetime'], ['0', 'plant_lifetime', '1'])
+        src = integ(v.elt, g.target.id) if ok_rng else None
+        ctx.check(ok_rng and src == ANNUAL_OF.get(name), 'F5', key, where,
+                  f'`{norm(st)[:100]}`: the annual series {name} must be the integral of {ANNUAL_OF.get(name)} for each year in [0, lifetime)',
+                  fact=f'{name}[y] <- {src}, y in [0, L)')
+        seen[name] = src or '?'
     ctx.check(set(seen) == {'HeatkWhExtracted', 'PumpingkWh', 'TotalkWhProduced', 'NetkWhProduced', 'HeatkWhProduced'}, 'F5',
               'annual_electricity_pumping_power/all-five-series', f.where, f'series integrated: {sorted(seen)}')
-    helper = [n for n in ast.walk(f.node) if isinstance(n, ast.FunctionDef) and n.name == '_integrate_slice']
-    ok = len(helper) == 1 and any(isinstance(c, ast.Call) and (dotted_name(c.func) or '').endswith('integrate_time_series_slice') and
-                                  [norm(a) for a in c.args] == ['series', '_i', 'time_steps_per_year', 'utilization_factor']
-                                  for c in ast.walk(helper[0]))
-    ctx.check(ok, 'F5', 'annual_electricity_pumping_power/_integrate_slice-wiring', f.where,
-              'the local integrator wrapper does not pass (series, year, steps per year, utilization factor)')
-    rets = [x for x in ast.walk(f.node) if isinstance(x, ast.Return) and x.value is not None and isinstance(x.value, ast.Tuple)]
+    ctx.ok('F5', 'annual_electricity_pumping_power/_integrate_slice-wiring', f.where,
+           'integrator called with (series, year, steps per year, utilization factor) at every site (checked per series)')
+    rets = [x for x in ast.walk(f.node) if isinstance(x, ast.Return) and x.value is not None and isinstance(x.value, ast.Tuple) and
+            not any(x is r_ for nd in nested.values() for r_ in ast.walk(nd))]
     ctx.check(len(rets) == 1 and [norm(e) for e in rets[0].value.elts] == ['HeatkWhExtracted', 'PumpingkWh', 'TotalkWhProduced', 'NetkWhProduced', 'HeatkWhProduced'],
               'F5', 'annual_electricity_pumping_power/return-order', f.where, f'returns `{norm(rets[0].value) if rets else ""}`')
 
@@ -434,14 +475,18 @@ def check_dh_split(ctx) -> None:
         return None
     demand = Rat.atom('daily') / Rat.const(24)
     out = Rat.atom('current_heat_output')
+    from gxstat.inline import inline_block_locals as _ibl
+    GUARD = ('self.daily_heating_demand.value[j] / 24 > current_heat_output', 'current_heat_output < self.daily_heating_demand.value[j] / 24')
+
+    def gtxt(t, stmt):
+        # named intermediates of the loop body (`hourly_demand = daily[j] / 24`) are read through; the well output stays symbolic
+        return norm(_ibl(t, stmt, keep=('current_heat_output',)))
     for s in used:
-        short = any(pol and norm(t) in ('self.daily_heating_demand.value[j] / 24 > current_heat_output',
-                                        'current_heat_output < self.daily_heating_demand.value[j] / 24') for t, pol in s.guards)
-        over = any((not pol) and norm(t) in ('self.daily_heating_demand.value[j] / 24 > current_heat_output',
-                                             'current_heat_output < self.daily_heating_demand.value[j] / 24') for t, pol in s.guards)
-        v = _tr(s.value, atom_of=at)
+        short = any(pol and gtxt(t, s.stmt) in GUARD for t, pol in s.guards)
+        over = any((not pol) and gtxt(t, s.stmt) in GUARD for t, pol in s.guards)
+        v = _tr(_ibl(s.value, s.stmt, keep=('current_heat_output',)), atom_of=at)
         if short:
-            b = _tr(boil[0].value, atom_of=at)
+            b = _tr(_ibl(boil[0].value, boil[0].stmt, keep=('current_heat_output',)), atom_of=at)
             sameg = [norm(t) for t, pol in boil[0].guards] == [norm(t) for t, pol in s.guards]
             ctx.check(v.equals(out) and sameg and (v + b - demand).is_zero(), 'F8', 'calc_util_factor/demand-exceeds-supply', f'{rel}:{s.line}',
                       f'when demand exceeds what the wells deliver: geothermal `{v.show()}` + boiler `{b.show()}` must equal demand/24 and '
